@@ -168,7 +168,8 @@ C14ok(s, o) ==
                /\ (ExceedsAt(s, i, x) /\ reached(x) /\ ~Script(s, i) => o.res[i][x] = "timeout")
                \* ... and the test cases after it are skipped, not passed, and were not run
                /\ (\E y \in 1..(x - 1) : ExceedsAt(s, i, y) /\ reached(y)) /\ ~Script(s, i)
-                     => o.res[i][x] \in {"skipped", "none"} /\ ~\E z \in 1..Len(o.ran[i]) : o.ran[i][z] = A[x].id
+                     => (IF A[x].det THEN o.res[i][x] \in {"skipped", "none"} ELSE o.res[i][x] = "skipped")
+                        /\ ~\E z \in 1..Len(o.ran[i]) : o.ran[i][z] = A[x].id
            \* the run fails
            /\ ((\E x \in slow : reached(x)) /\ ~o.aborted => o.exit = 50)
            \* "aborted": after a reported timeout the command does not go on running (no late marker)
